@@ -59,5 +59,13 @@ CLAIMED.update({
     "C08": ("proof", CODEC_TEXT + "; exception discipline = the exception class of every path equals the reference's (DataError / BufferEmptyError only)", "contracts + VC generation (pyvc) + z3", "DESIGN.md 3 (C06-C08), 9"),
 })
 
+CLAIMED.update({
+    "C12": ("proof", "Socket.receive and Socket.send are verified against an assumed nondeterministic socket (any non-empty chunk, "
+            "any partial send, close or OSError at any call): loop invariants (received == frame[:delivered]; sent == msg[:total_sent]) "
+            "and variants are discharged for all frames up to the 16-bit length field and all schedules at once; "
+            "CommError is the only exception and arises only after a peer fault",
+            "loop invariants + variants over a nondeterministic environment contract (pyvc + z3)", "DESIGN.md 3 (C12), 9"),
+})
+
 if __name__ == "__main__":
     main()
